@@ -37,19 +37,9 @@ def check(rep, tier, seed):
         c.meta["retry"] = True
     cases += rcases
     core.run_cases(cases)
-    for c in cases:
-        rep.count_case(c)
-        if c.meta.get("retry"):
-            hit = c09.oracle(c, only="stalled")
-        else:
-            hit = sched.oracle_c04(c)
-        if hit:
-            if core.handle_oracle_hit(rep, "C04", hit[1], c, hit[0], hit[1]):
-                return
-            continue
-        if c.diff() is not None:
-            core.handle_diff(rep, "C04", "correspondence", c)
-            return
+    pick = lambda c: c09.oracle(c, only="stalled") if c.meta.get("retry") else sched.oracle_c04(c)
+    if core.judge(rep, "C04", cases, pick):
+        return
     rep.cov["stepped_repair_placements"] = n_spl
     rep.assumptions += ["atomicity granularity: one tso.Deal, one engine batch commit, one engine snapshot read, one slot store are single steps "
                         "(the repair loop: its read + deal, and its commit + notification + pop)",
